@@ -34,6 +34,10 @@ def scenario_set(pkidir):
                               ("T13", "psk+pad", "padblock=512", "padblock=1024"),
                               ("T13", "psk+res+hrr-sni", "groups=24 snicb=1", "groups=23,24 shares=1 sni=localhost name=localhost")):
         S.append(dict(ver=ver, kx="followup", fam="r", suites="0xc02f", role="C", cb="none", cred="ok", pop="ok", carrier="none", mode=mode, sx=sx, cx=cx))
+    # external TLS 1.3 PSKs that carry session parameters (server name, ALPN protocol, early-data limit): every copy the key loader
+    # makes can fail; one, two or three keys so that a failure also meets a list that already has entries
+    for n, kx_ in ((1, "psksni=localhost pskalpn=h2"), (3, "psksni=localhost pskalpn=h2 early=16384"), (2, "pskalpn=http/1.1"), (2, "psksni=localhost")):
+        S.append(dict(ver="T13", kx="followup", fam="r", suites="0xc02f", role="C", cb="none", cred="ok", pop="ok", carrier="none", mode="psk+extpsk%d" % len(S), kextra="psk13=%d %s" % (n, kx_)))
     return S
 
 TK = "/repo/testkeys"
@@ -47,6 +51,7 @@ def followup_script(sc, k):
     if sc.get("sx"): so += " " + sc["sx"]
     if sc.get("cx"): co += " " + sc["cx"]
     KS = ["keys ks id=%s/RSA/2048_RSA.pem,%s/RSA/2048_RSA_KEY.pem ca=%s/RSA/2048_RSA_CA.pem tickets=1" % (TK, TK, TK), "keys kc ca=%s/RSA/2048_RSA_CA.pem" % TK]
+    if sc.get("kextra"): KS = [x + " " + sc["kextra"] for x in KS]
     if "+res" in sc["mode"]:
         # keys and a first, fault-free connection that fills the handle; then the resumption under the fault; then a fault-free third connection
         L = KS + ["new s9 server keys=ks %s" % so, "new c9 client keys=kc %s" % co, "link c9 s9", "pump c9 s9 max=60", "send c9 5", "pump c9 s9 max=8", "close c9", "pump c9 s9 max=6", "del c9", "del s9",
@@ -64,6 +69,9 @@ def followup_script(sc, k):
          "new s1 server keys=ks %s" % so, "new c1 client keys=kc %s" % co, "link c1 s1", "pump c1 s1 max=60", "send c1 5", "send s1 6", "pump c1 s1 max=8", "state c1", "state s1",
          "close c1", "pump c1 s1 max=6", "del c1", "del s1"]
     meta = dict(role="C", cb="none", cred="ok", pop="ok", carrier="CERTIFICATE_VERIFY" if sc["ver"] == "T13" else "none" if sc["ver"] == "T11" else "SERVER_KEY_EXCHANGE", verifier="c0", prover="s0", ver=sc["ver"], kx="followup", eid=0)
+    if sc.get("kextra"):
+        # both sides hold the external PSK: the handshake is authenticated by it, there is no certificate step for MxAuth_Trace to follow
+        meta = dict(role="C", cb="none", cred="ok", pop="ok", carrier="none", verifier="-", prover="-", ver=sc["ver"], kx="followup", eid=0)
     return L, meta
 
 def script(sc, pkidir, k):
